@@ -1,4 +1,4 @@
-import PlaybackProofs.RecorderTable
+import PlaybackProofs.RecorderSent
 import PlaybackProofs.OutKey
 /-!
 # C03 — Captured outputs are exactly what the executing code sent
@@ -79,6 +79,17 @@ theorem C03_replay_outputs_are_recorded_outputs (w : Key → RVal) (p : Prog) (h
             (exec t p).1.playbackOutputs = t.playbackOutputs ++ outs :=
   (replay_core w p hF hN s t a aF r o hp he hi ha hact hend tp tr ti ta tc).2.2.2
 
+/-- **Recorded outputs are exactly what the program sent.**  `planOutputs c p` lists the output calls the program itself
+makes (as the undecorated twin would: the path follows what the wrapped bodies return; calls made from inside a wrapped body
+are not interceptions), each keyed by alias and per-alias ordinal counted from `c`, with the arguments it sends.  If the
+recording survives the program, the outputs attached to it are exactly those, in call order, after what it held before. -/
+theorem C03_recorded_is_sent (p : Prog)
+    (hwf : p.All (fun cfg args _ => InputKeyShape cfg args) (fun _ _ _ => True))
+    (s : St) (a aF : Active) (hp : s.playback = none) (he : s.enabled = true) (hi : s.inInt = false)
+    (ha : s.active = some a) (hact : (exec s p).1.active = some aF) :
+    extractOutputs aF.data = (planOutputs s.counter p).reverse ++ extractOutputs a.data :=
+  recorded_is_sent p hwf s a aF hp he hi ha hact
+
 /-- The operation's own result is the last captured output, in recording and in replay alike. -/
 theorem C03_operation_output (s : St) (p : Prog) (v : Val) (h : (exec s p).2 = .out (.ret v)) :
     (execOperationFunc s p).1 =
@@ -92,6 +103,12 @@ theorem C03_operation_output (s : St) (p : Prog) (v : Val) (h : (exec s p).2 = .
   rfl
 
 /-! Non-vacuity -/
+example : planOutputs [] (.callOut { name := "g", alias := "g", prepare := none, failOnMissing := true, default := .atom "" }
+    ⟨[.atom "1"], []⟩ (.done (.out (.ret (.atom "r"))))
+    (fun _ => .callOut { name := "g", alias := "g", prepare := none, failOnMissing := true, default := .atom "" }
+      ⟨[.atom "2"], []⟩ (.done (.out (.exc "E"))) (fun _ => .done (.out (.ret (.atom "x"))))))
+    = [(.outArgs "g" 1, .sent [.atom "1"] []), (.outArgs "g" 2, .sent [.atom "2"] [])] := by
+  simp [planOutputs, outValue, bodyEnd, runPlain, cnt, bumpC]
 example : outKeyChars "send".toList 12 = "output: send #12".toList := by decide
 example : outValue { name := "g", alias := "g", prepare := none, failOnMissing := true, default := .atom "" } ⟨[.atom "1"], []⟩
     = some (.sent [.atom "1"] []) := rfl
